@@ -48,7 +48,7 @@ ASSUMPTIONS = [
     "the branching solver runs without its (default 1 ms) time limit, so that path counts do not depend on machine load",
     "warnings are not part of the compared result (halmos de-duplicates some of them per process by design)",
 ]
-WATCHDOG_S = {"quick": 900, "thorough": 7200}
+WATCHDOG_S = {"quick": 2400, "thorough": 10800}
 
 MANIFEST = {
     "technique": "metamorphic testing over run histories: each generated test is run alone, after other state-mutating tests in several orders, repeatedly, and under different fresh-symbol suffix generators in one process, comparing normalised results; differential testing of sibling paths of generated forking programs against a reference EVM",
